@@ -438,3 +438,36 @@ fn deep_nesting_is_an_error_not_a_crash() {
     let s = format!("{}a{}", "{ a ".repeat(100_000), "}".repeat(100_000));
     assert!(parse_executable(&s).is_err());
 }
+
+#[test]
+fn leniencies_are_off_by_default_and_recorded() {
+    let lenient = ParseOptions { lenient: Leniency::all(), post_2018: true, ..Default::default() };
+    for (src, kind, name) in [
+        ("", DocumentKind::Executable, "empty-document"),
+        (" # c\n", DocumentKind::TypeSystem, "empty-document"),
+        ("extend scalar S", DocumentKind::TypeSystem, "empty-extension"),
+        ("extend type T", DocumentKind::TypeSystem, "empty-extension"),
+        ("extend interface T", DocumentKind::TypeSystem, "empty-extension"),
+        ("extend union T", DocumentKind::TypeSystem, "empty-extension"),
+        ("extend enum T", DocumentKind::TypeSystem, "empty-extension"),
+        ("extend input T", DocumentKind::TypeSystem, "empty-extension"),
+        ("extend schema", DocumentKind::TypeSystem, "empty-extension"),
+        ("enum E { A null }", DocumentKind::TypeSystem, "reserved-enum-value"),
+        ("fragment on on T { a }", DocumentKind::Executable, "fragment-named-on"),
+        ("\"d\" extend type T { a: Int }", DocumentKind::TypeSystem, "description-on-extension"),
+        ("\"d\" \"e\" type T { a: Int }", DocumentKind::TypeSystem, "second-description-string"),
+        ("type T { \"d\" \"\"\"e\"\"\" a: Int }", DocumentKind::TypeSystem, "second-description-string"),
+        ("directive d on FIELD", DocumentKind::TypeSystem, "directive-without-at"),
+    ] {
+        assert!(parse_with(src, kind, ParseOptions::default()).is_err(), "{src:?} is not grammatical");
+        let (_, facts) = parse_with(src, kind, lenient).unwrap_or_else(|e| panic!("{src:?}: {e}"));
+        assert!(facts.used_leniencies.contains(&name), "{src:?}: {:?}", facts.used_leniencies);
+    }
+    // lenient mode does not change the result for grammatical input
+    let (d, facts) = parse_with("\"d\" type T { \"e\" a: Int }", DocumentKind::TypeSystem, lenient).unwrap();
+    assert!(facts.used_leniencies.is_empty());
+    assert_eq!(d, parse_schema("\"d\" type T { \"e\" a: Int }").unwrap());
+    // and still rejects what no leniency covers
+    assert!(parse_with("type T { \"d\" \"e\" \"f\" a: Int }", DocumentKind::TypeSystem, lenient).is_err());
+    assert!(parse_with("input I { \"d\" \"e\" a: Int }", DocumentKind::TypeSystem, lenient).is_err());
+}
